@@ -100,17 +100,18 @@ theorem tryNormalize_const_shape {d : List (DomVar (Ext K))} {l r : Exp (Ext K)}
 
 /-- **one iteration of the loop on a source constraint**: when it succeeds, the left side — and for a comparison
 the right side — has a value at every assignment that satisfies the initial domains. -/
-theorem process_defined {d0 : List (DomVar (Ext K))} {c : Constraint (Ext K)} {s : St (Ext K)}
-    {r : Unit × St (Ext K)} (h : processConstraint c s = .ok r) (hc : SrcD d0 c) (ρ : String → K)
-    (hd : DomSat ρ d0) : Def ρ c.lhs ∧ (c.isAssert = false → Def ρ c.rhs) := by
+theorem process_defined_at {c : Constraint (Ext K)} {s : St (Ext K)}
+    {r : Unit × St (Ext K)} (h : processConstraint c s = .ok r) (hfl : FinE c.lhs) (hfr : FinE c.rhs)
+    (ρ : String → K) (hncl : NC ρ c.lhs) (hncr : NC ρ c.rhs) :
+    Def ρ c.lhs ∧ (c.isAssert = false → Def ρ c.rhs) := by
   unfold processConstraint at h
   simp only [bind_ok, simplifyFlat_ok] at h
   obtain ⟨lhs', s1, ⟨fl1, hf1, h1⟩, rhs', s2, ⟨fl2, hf2, h2⟩, h3⟩ := h
   cases h1; cases h2
-  have hevl : eval ρ lhs' = eval ρ c.lhs := hc.lhs.normalize_eval hf1 ρ hd
-  have hevr : eval ρ rhs' = eval ρ c.rhs := hc.rhs.normalize_eval hf2 ρ hd
-  have hfl' : FinE lhs' := finiteLits_normalize hc.lhs.fin hf1
-  have hfr' : FinE rhs' := finiteLits_normalize hc.rhs.fin hf2
+  have hevl : eval ρ lhs' = eval ρ c.lhs := normalize_eval_eq_nc hf1 hncl hfl
+  have hevr : eval ρ rhs' = eval ρ c.rhs := normalize_eval_eq_nc hf2 hncr hfr
+  have hfl' : FinE lhs' := finiteLits_normalize hfl hf1
+  have hfr' : FinE rhs' := finiteLits_normalize hfr hf2
   obtain ⟨u, s'⟩ := r
   by_cases hA : c.isAssert = true
   · simp only [hA, if_true] at h3
@@ -152,5 +153,11 @@ theorem process_defined {d0 : List (DomVar (Ext K))} {c : Constraint (Ext K)} {s
           rw [hr] at hfr' ⊢; exact Def_num_of_finite hfr'
         · refine ⟨?_, def_of_lowerAssertion h3 hfr' ρ⟩
           rw [hl] at hfl' ⊢; exact Def_num_of_finite hfl'
+
+/-- the same under the static contract over a domain `d0`. -/
+theorem process_defined {d0 : List (DomVar (Ext K))} {c : Constraint (Ext K)} {s : St (Ext K)}
+    {r : Unit × St (Ext K)} (h : processConstraint c s = .ok r) (hc : SrcD d0 c) (ρ : String → K)
+    (hd : DomSat ρ d0) : Def ρ c.lhs ∧ (c.isAssert = false → Def ρ c.rhs) :=
+  process_defined_at h hc.lhs.fin hc.rhs.fin ρ (hc.lhs.nc ρ hd) (hc.rhs.nc ρ hd)
 
 end Rooc.LinP
